@@ -1731,3 +1731,164 @@ def memo_key_rule(ctx, res, rule: str, modules, rest: bool = False) -> None:
                     ": two calls that agree on the key and differ there get the answer computed for the first one",
                     function=f.qualname, key=key)
     res.analysed[f"memo functions:{rule}"] = n
+
+
+# ---------------------------------------------------------------------------------------------------------------------
+# identifier characters (shared C01 / C02 / C03 / C14 / C20)
+
+_IDCHAR_SELFCHECK = '''
+def hand_rolled(c):
+    return c.isalnum() or c == "_"
+def hand_rolled2(s, i):
+    while i >= 0 and (s[i].isalnum() or s[i] in "_"):
+        i -= 1
+def hand_rolled3(prev):
+    if not (prev.isalnum() or prev == "_"):
+        return False
+def fine(c, d):
+    return c.isalnum() or d == "_"
+def codec(c):
+    return c.isalnum() or c in "-_."
+'''
+
+
+def _hand_rolled_id_tests(tree: ast.AST) -> List[ast.BoolOp]:
+    """`X.isalnum() or X == "_"` (also `X in "_"`), for one and the same X: a home-made "is an identifier character" """
+    out = []
+    for x in ast.walk(tree):
+        if not (isinstance(x, ast.BoolOp) and isinstance(x.op, ast.Or)):
+            continue
+        alnum = {ast.dump(v.func.value) for v in x.values
+                 if isinstance(v, ast.Call) and isinstance(v.func, ast.Attribute) and v.func.attr == "isalnum" and not v.args}
+        under = {ast.dump(v.left) for v in x.values
+                 if isinstance(v, ast.Compare) and len(v.ops) == 1 and isinstance(v.ops[0], (ast.Eq, ast.In))
+                 and isinstance(v.comparators[0], ast.Constant) and v.comparators[0].value in ("_", b"_")}
+        has_ident = any(isinstance(c, ast.Call) and call_name(c) in ("isidentifier", "is_identifier_char") for v in x.values for c in ast.walk(v))
+        if alnum & under and not has_ident:
+            out.append(x)
+    return out
+
+
+def identifier_char_rule(ctx, res, rule: str, modules, rest: bool = False, occurrences: bool = False) -> None:
+    """Which characters belong to an identifier is the tokenizer's decision: XID_Start then XID_Continue (PEP 3131), which
+    besides letters, digits and `_` contains the combining marks and connectors -- every Devanagari vowel sign, Hebrew point,
+    Thai vowel; `"देव".isidentifier()` holds, `"े".isalnum()` does not.  rope asks `worder.is_identifier_char`.
+      (a) that function accepts a non-ASCII character exactly when the interpreter accepts it after an identifier start
+          (an `isidentifier()` call on start + char is one of its alternatives);
+      (b) no function of `modules` tests `X.isalnum() or X == "_"` on its own (detector checked on a fixed example at every run);
+      (c) [occurrences] the candidate pattern of the textual finder does not put `\\b` next to the name (`\\b` needs a word
+          character on one side: a name ending in a mark is never found, and a mark after the name is taken for a boundary),
+          and every offset yielded for the bare-word alternative passed a whole-word test that reaches is_identifier_char."""
+    idx = ctx.idx
+    # detector self-check
+    t = ast.parse(_IDCHAR_SELFCHECK)
+    hits = {f.name: len(_hand_rolled_id_tests(f)) for f in t.body}
+    if hits != {"hand_rolled": 1, "hand_rolled2": 1, "hand_rolled3": 1, "fine": 0, "codec": 0}:
+        raise AnalysisError(f"identifier-character detector self-check failed: {hits}")
+    f = idx.functions.get("rope.base.worder.is_identifier_char")
+    if f is not None:
+        ps = param_names(f.node)
+        good = None
+        for r in [x for x in walk_local(f.node) if isinstance(x, ast.Return) and x.value is not None]:
+            for c in ast.walk(r.value):
+                if isinstance(c, ast.Call) and call_name(c) == "isidentifier" and isinstance(c.func, ast.Attribute) and isinstance(c.func.value, ast.BinOp) \
+                        and isinstance(c.func.value.op, ast.Add) and isinstance(c.func.value.left, ast.Constant) and isinstance(c.func.value.left.value, str) \
+                        and c.func.value.left.value.isidentifier() and isinstance(c.func.value.right, ast.Name) and ps and c.func.value.right.id == ps[0]:
+                    # it must be an ALTERNATIVE of the answer: reachable through `or` / a guard `not char.isascii() and ...`
+                    good = c
+            if good is not None:
+                par = {}
+                for p in ast.walk(r.value):
+                    for ch in ast.iter_child_nodes(p):
+                        par[ch] = p
+                cur = good
+                while cur is not r.value:
+                    p = par[cur]
+                    if isinstance(p, ast.BoolOp) and isinstance(p.op, ast.And):
+                        others = [v for v in p.values if v is not cur]
+                        if not all(isinstance(o, ast.UnaryOp) and isinstance(o.op, ast.Not) and isinstance(o.operand, ast.Call) and call_name(o.operand) == "isascii" for o in others):
+                            good = None
+                            break
+                    elif not (isinstance(p, ast.BoolOp) and isinstance(p.op, ast.Or)):
+                        good = None
+                        break
+                    cur = p
+        res.add(rule, "is_identifier_char|asks-the-interpreter", good is not None, f.where,
+                "a non-ASCII character is accepted when `start + char` is an identifier for the interpreter" if good is not None else
+                "worder.is_identifier_char does not ask `(<start> + char).isidentifier()` as an alternative of its answer: combining marks and connectors "
+                "(XID_Continue beyond isalnum, e.g. the vowel signs of देव) are not identifier characters for rope, so the word at such a name is cut and "
+                "a shorter name matches inside it", function=f.qualname)
+    n = 0
+    for g in sorted(idx.functions.values(), key=lambda g: g.qualname):
+        mod = g.unit.modname
+        covered = ("rope.base.worder", "rope.refactor.occurrences", "rope.refactor.extract", "rope.contrib.codeassist")
+        if not (mod in modules or (rest and mod.startswith("rope.") and mod not in covered)) or g.parent is not None:
+            continue
+        n += 1
+        if g.qualname == "rope.base.worder.is_identifier_char":
+            continue
+        for b in _hand_rolled_id_tests(g.node):
+            short = g.qualname.split(".", 2)[-1]
+            res.add(rule, f"{short}|no-home-made-identifier-test", False, f"{g.unit.rel}:{b.lineno}",
+                    f"{short} decides with `{ast.unparse(b)[:80]}` whether a character belongs to an identifier: combining marks and connectors (valid after the "
+                    "first character, PEP 3131: दे, שָׁ) are not `isalnum()`, so the word is cut at the mark / a shorter name is found inside a longer one and "
+                    "rewritten; ask worder.is_identifier_char", function=g.qualname)
+    res.analysed[f"functions scanned for home-made identifier tests:{rule}"] = n
+    if n == 0:
+        raise AnalysisError(f"{rule}: no function of {modules} scanned")
+    res.add(rule, "home-made-identifier-tests|none-in-scope", True, "rope/", f"{n} functions scanned")
+    if occurrences:
+        TF = "rope.refactor.occurrences._TextualFinder"
+        from .. import fold
+        folder = fold.get(ctx)
+        folder.init_env[TF] = {"name": "NAME", "docs": False}
+        try:
+            try:
+                pat = folder.call_function(TF + "._get_occurrence_pattern", ["NAME"])
+            except fold.Unfoldable:
+                tfc = idx.need_class(TF)
+                pat = folder.eval(tfc.unit.modname, ast.parse("self.pattern", mode="eval").body, {}, cls=tfc)
+        except fold.Unfoldable as e:
+            raise AnalysisError(f"occurrence pattern not foldable: {e}")
+        import re as _re
+        b_adjacent = bool(_re.search(r"\\bNAME|NAME\\b", pat))
+        res.add(rule, "_TextualFinder.pattern|no-\\b-next-to-the-name", not b_adjacent, "rope/refactor/occurrences.py",
+                "the name is delimited by look-arounds, not by \\b" if not b_adjacent else
+                "the candidate pattern delimits the name with \\b: a name that ends in a combining mark (दे) has no word character at its end, \\b never "
+                "matches there and no occurrence of the name is found at all; and `द\\b` matches in front of the mark of देव")
+        rs = idx.need_func(TF + "._re_search")
+        from ..cfg import CFG
+        cfg = CFG(rs.node)
+        tfc = idx.need_class(TF)
+
+        def reaches(nm: str, seen=None) -> bool:
+            seen = seen or set()
+            if nm in seen or nm not in tfc.methods:
+                return False
+            seen.add(nm)
+            m = tfc.methods[nm]
+            for c in calls_in(m.node):
+                if call_name(c) == "is_identifier_char":
+                    return True
+                if is_self_attr(c.func) and reaches(c.func.attr, seen):
+                    return True
+            return False
+        k = 0
+        for nd in cfg.nodes:
+            if nd.kind != "stmt" or not any(isinstance(x, ast.Yield) for x in ast.walk(nd.ast)):
+                continue
+            gs = cfg.guards(nd.id)
+            if not any(pol and any(const_str_(x) == "occurrence" for x in ast.walk(t)) for t, pol in gs):
+                continue
+            k += 1
+            ok = any(pol and isinstance(c, ast.Call) and is_self_attr(c.func) and reaches(c.func.attr) for t, pol in gs for c in ast.walk(t))
+            res.add(rule, f"_TextualFinder._re_search|bare-word-is-whole-word#{k}", ok, f"{rs.unit.rel}:{nd.lineno}",
+                    "a bare-word match is yielded only after a whole-word test that asks is_identifier_char" if ok else
+                    "_re_search yields the offset of a bare-word match without a whole-word test that asks is_identifier_char: the regex knows only \\w, for "
+                    "which a combining mark is no word character, so `द` is found at the start of `देव` and rewritten", function=rs.qualname)
+        # (no yield under the bare-word group at all is R02.2's finding, not this rule's)
+        res.analysed[f"bare-word yields of the textual finder:{rule}"] = k
+
+
+def const_str_(x) -> Optional[str]:
+    return x.value if isinstance(x, ast.Constant) and isinstance(x.value, str) else None
